@@ -80,3 +80,123 @@ class AbsInt:
             else:
                 env[key] = v
         return {'fall'}
+
+
+class Collector:
+    """walks a function body under an environment of known values (opcode, flags) and collects the calls of interest with the
+    environment at the call; conditions that cannot be evaluated explore both branches; switch statements on a known value
+    take the matching case"""
+
+    def __init__(self, tu, preds, want):
+        self.tu, self.preds, self.want = tu, preds, want
+        self.hits = []
+
+    def ev(self, e, env):
+        return self.preds.eval(e, env, frozenset())
+
+    def scan_expr(self, e, env):
+        for x in F.walk(e):
+            if x['k'] == 'CallExpr' and self.want(x):
+                self.hits.append((x, dict(env)))
+
+    def run(self, stmt, env):
+        """returns False when control definitely leaves (return/break/continue/goto)"""
+        from . import regions as R
+        if stmt is None:
+            return True
+        k = stmt['k']
+        if k == 'CompoundStmt':
+            for s in F.kids(stmt):
+                if not self.run(s, env):
+                    return False
+            return True
+        if k == 'IfStmt':
+            self.scan_expr(stmt['c'][0], env)
+            c = self.ev(stmt['c'][0], env)
+            if c is None:
+                e1, e2 = dict(env), dict(env)
+                a = self.run(stmt['c'][1], e1)
+                b = self.run(stmt['c'][2], e2) if stmt['c'][2] is not None else True
+                for key in list(env):
+                    if e1.get(key) != e2.get(key):
+                        env.pop(key, None)
+                return a or b
+            return self.run(stmt['c'][1], env) if c else (self.run(stmt['c'][2], env) if stmt['c'][2] is not None else True)
+        if k == 'SwitchStmt':
+            v = self.ev(stmt['c'][0], env)
+            body = stmt['c'][1]
+            if v is None or body is None or body['k'] != 'CompoundStmt':
+                return True
+            started = False
+            dflt_at = None
+            ks = F.kids(body)
+            def labels(s):
+                out = []
+                while s is not None and s['k'] in ('CaseStmt', 'DefaultStmt'):
+                    out.append(s)
+                    s = F.kids(s)[0] if F.kids(s) else None
+                return out, s
+            start = None
+            for i, s in enumerate(ks):
+                ls, inner = labels(s)
+                for l in ls:
+                    if l['k'] == 'CaseStmt' and l.get('lo') is not None and l['lo'] <= v <= l.get('hi', l['lo']):
+                        start = i
+                    if l['k'] == 'DefaultStmt' and dflt_at is None:
+                        dflt_at = i
+                if start is not None:
+                    break
+            if start is None:
+                start = dflt_at
+            if start is None:
+                return True
+            for s in ks[start:]:
+                ls, inner = labels(s)
+                target = inner if ls else s
+                if target is not None and target['k'] == 'BreakStmt':
+                    return True
+                r = self.run(target, env)
+                if not r:
+                    # a break inside ends the switch, a return leaves the function: distinguish
+                    return self._left_by_break
+            return True
+        if k in ('ForStmt', 'WhileStmt', 'DoStmt'):
+            for c in F.kids(stmt):
+                if c['k'] in ('CompoundStmt', 'IfStmt') or c is (stmt['c'][3] if k == 'ForStmt' else None):
+                    e2 = dict(env)
+                    self.run(c, e2)
+                else:
+                    self.scan_expr(c, env)
+            return True
+        if k == 'BreakStmt':
+            self._left_by_break = True
+            return False
+        if k in ('ReturnStmt', 'ContinueStmt', 'GotoStmt'):
+            for c in F.kids(stmt):
+                self.scan_expr(c, env)
+            self._left_by_break = False
+            return False
+        if k in ('CaseStmt', 'DefaultStmt', 'LabelStmt'):
+            ks = F.kids(stmt)
+            return self.run(ks[0], env) if ks else True
+        if k == 'DeclStmt':
+            for d in stmt['decls']:
+                if d.get('init') is not None:
+                    self.scan_expr(d['init'], env)
+                    v = self.ev(d['init'], env)
+                    if v is None:
+                        env.pop(d['n'], None)
+                    else:
+                        env[d['n']] = v
+            return True
+        self.scan_expr(stmt, env)
+        if k == 'BinaryOperator' and stmt['op'] == '=':
+            key = F.src(F.strip(stmt['c'][0]))
+            v = self.ev(stmt['c'][1], env)
+            if v is None:
+                env.pop(key, None)
+            else:
+                env[key] = v
+        return True
+
+    _left_by_break = False
